@@ -56,5 +56,19 @@ PROPS["C16"] = {
 }
 
 
+PROPS["C07"] = {
+    "level": "proof",
+    "verus": ["stdlib_cond"],
+    "kani": [],
+    "unverified_callers": [
+        "Condition::build_if_command closure (evaluate -> true_case/false_case dispatch) and the VM expansion loop",
+        "Parsable for i32 / (i32, Ordering, i32): assumed to return an arbitrary value and only consume tokens",
+        "expansion.rs: \\expandafter simple vs optimised equivalence and \\noexpand are NOT decided (expand_once is VM-internal)",
+        "command tags preserved by \\let (assumed: tag_of reads the tag of the aliased command)",
+    ],
+    "assumptions": ["the four conditional tags are pairwise distinct (StaticTag uniqueness, C20 tag clause)", "fewer than 2^31 - 65536 pending tokens (depth counter is an i32)"],
+}
+
+
 def props():
     return PROPS
